@@ -164,6 +164,11 @@ def statement_coverage():
                                                                        ("X", "JOYSTK ( 0 )"), ("X", "POINT ( 1 , 2 )"), ("A$", "INKEY$"), ("A$", "STR$ ( X )"), ("A$", "HEX$ ( X )"),
                                                                        ("A$", "STRING$ ( 3 , B$ )"), ("A ( 2 )", "INT ( Y )"), ("A ( INT ( X ) )", "INT ( Y )"), ("A$ ( 1 )", "STR$ ( X )"),
                                                                        ("X", "INT ( Y ) + 1"), ("A$", 'STR$ ( X ) + "!"'))] + [
+        # a converted function whose operand is a converted function, as the whole right-hand side
+        "10 X = INT ( VAL ( A$ ) )", "10 A$ = STR$ ( INT ( X ) )", "10 P = POINT ( INT ( X ) , INT ( Y ) )", "10 I = INSTR ( 1 , A$ , STR$ ( X ) )",
+        "10 J = INT ( JOYSTK ( 0 ) / 8 )", "10 A$ = STRING$ ( INT ( X ) , STR$ ( Y ) )", "10 A ( 1 ) = INT ( VAL ( A$ ) )", "10 A$ = HEX$ ( INT ( X ) )",
+        # two-operand MID$ (Color BASIC: to the end of the string)
+        "10 A$ = MID$ ( B$ , 2 )", '10 IF MID$ ( A$ , 2 ) = "X" THEN 10', "10 PRINT MID$ ( A$ , N )",
         # lines without a statement
         "10 :", "10 : :", "10 GOTO 20\n20 :", "10 GOTO 20\n20", "10 A = 1\n20\n30 B = 2",
     ]
